@@ -39,6 +39,7 @@ RULES = {
     "R1": "`for &x in E {` -> `for x__r in E.iter() { let x = *x__r;`",
     "R2": "`for (i, x) in E.iter().enumerate() {` -> index while loop",
     "R4": "`for i in (a..b).rev() {` -> descending while loop",
+    "R7": "error-constructor expression `ParseError::X {..}` -> opaque `mk_err()`",
     "R9": "`E as <int>` -> `#[verifier::truncate] (E as <int>)` (Rust `as` is truncation)",
     "R10": "byte-string literal -> array literal of the same bytes",
     "R11": "`crate::a::b::X` / `super::X` / `Self::` path prefixes stripped or renamed for single-file assembly",
@@ -126,6 +127,22 @@ def apply_common_rules(text, ed, rules, log, where):
                         log.append(("D2", where, t.text + "!"))
                         i = e + 1; continue
         i += 1
+    if "R7" in rules:
+        # error-constructor expressions -> opaque mk_err(); error payloads never occur in a contract
+        i = 0
+        while i < len(toks):
+            t = toks[i]
+            if t.kind == "ident" and t.text in ("ParseError", "PdfError", "OperationError"):
+                j = next_code(toks, i)
+                if j is not None and toks[j].text == "::":
+                    k = next_code(toks, j)
+                    l = next_code(toks, k) if k is not None else None
+                    if k is not None and toks[k].kind == "ident" and l is not None and toks[l].text in ("{", "("):
+                        e = match_forward(toks, l)
+                        ed.replace(t.start, toks[e].end, "mk_err()")
+                        log.append(("R7", where, text[t.start:toks[l].start].strip()))
+                        i = e + 1; continue
+            i += 1
     if "R9" in rules:
         _rule_r9(text, toks, ed, log, where)
     if "R10" in rules:
@@ -324,8 +341,11 @@ def assemble(overlay_path):
         elif d == "end":
             if cur is None: raise ExtractError(f"{overlay_path}:{i+1}: stray end")
             txt, offs, sf, fmeta = build_item(cur, log)
-            out_chunks.append((txt + "\n", offs + [None], sf))
-            if fmeta: functions.append(fmeta)
+            txt = txt + "\n"
+            out_chunks.append((txt, offs + [None], sf))
+            if fmeta:
+                fmeta["_chunk"] = txt
+                functions.append(fmeta)
             cur = None
         elif d == "raw":
             pass
@@ -347,6 +367,11 @@ def assemble(overlay_path):
     linemap = {}  # out line -> (file, src line)
     line = 1
     for (t, offs, sf) in out_chunks:
+        for fm in functions:
+            if fm.get("_chunk") is t:
+                fm["out_first"] = line; fm["out_last"] = line + fm["main_lines"] - 1
+                fm["chunk_last"] = line + t.count("\n")
+                del fm["_chunk"]
         if offs is not None and sf is not None:
             first = {}
             l = line
@@ -548,10 +573,12 @@ def build_item(cur, log):
                  line=sf.line_of(sf.toks[kw].start), kind=kind,
                  has_requires=bool(re.search(r"\brequires\b", sig_txt)))
     # vacuity sibling
+    fmeta["main_lines"] = t.count("\n") + 1
     if fmeta["has_requires"] and "novac" not in pos and "novac" not in opts:
         rendered_sig, _ = _render_sig_only(text, toks, k_name, k_body, opts, sig_txt, has_ret)
         t += "\n" + rendered_sig
         offs += [None] * (len(rendered_sig) + 1)
+        fmeta["has_vac"] = True
     return t, offs, sf, fmeta
 
 
